@@ -1,1 +1,454 @@
-fn main() {}
+//! C07 — remapping a jar renames every reference consistently and nothing else.
+//!
+//! Real code: `dukebox::remap::remap(jar, remapper)` -> `ParsedJar` -> `to_mem()`, over every jar storage type
+//! (`NamedMemJar`, `UnnamedMemJar`, `FileJar`, `ParsedJar` with raw and with parsed classes), driven with real
+//! `quill` remappers (`Mappings::remapper_b` over `JarSuperProv`s: the jar's own `get_super_classes_provider()`
+//! plus a provider for the hierarchy outside the jar).
+//! Oracle: the result is re-opened with the `zip` crate, every class is parsed with the harness' independent strict
+//! parser (`cf::parse`) and compared with `rename_ref(cf::parse(input class), R)` (module `rename`), a walk over the
+//! harness' own semantic model that asks the real remapper R for every original reference. Entry names, non-class
+//! entries and directories are compared byte for byte. The duke trees inside the `ParsedJar` are additionally
+//! projected (`cf::project`) to see the stack-map types, which the class writer never emits.
+mod compare;
+mod conv;
+mod jargen;
+mod jario;
+mod rename;
+
+use cf::{emit, features, model::*, parse, project};
+use common::{par::*, report::{finish, Meta}, *};
+use conv::{Answers, AskErr};
+use dukebox::storage::{ClassRepr, FileJar, Jar, JarEntryEnum, NamedMemJar, UnnamedMemJar};
+use indexmap::{IndexMap, IndexSet};
+use jario::{Item, RawEntry};
+use maps::model::{to_quill, Ins, Maps};
+use quill::remapper::JarSuperProv;
+use quill::tree::mappings::Mappings;
+use quill::tree::names::Namespace;
+use rename::{JarIndex, Stats};
+use std::collections::{BTreeMap, BTreeSet};
+
+const FRONT_ENDS: [&str; 5] = ["NamedMemJar(zip bytes)", "UnnamedMemJar(zip bytes)", "ParsedJar(ClassRepr::Vec)", "ParsedJar(ClassRepr::Parsed)", "FileJar"];
+
+struct Job {
+    what: String,
+    entries: Vec<RawEntry>,
+    /// entry index -> model of the input class (parsed by the independent parser)
+    models: BTreeMap<usize, Class>,
+    maps: Maps,
+    from: usize,
+    to: usize,
+    ext_provider: bool,
+    /// build the jar's super-class provider from the models instead of calling Jar::get_super_classes_provider
+    own_provider: bool,
+    front: usize,
+    deflate: Vec<bool>,
+    ins_seed: u64,
+    scratch_file: String,
+    tags: BTreeSet<String>,
+}
+
+fn template(msg: &str) -> String {
+    let mut out = String::new(); let mut in_q = false; let mut in_num = false;
+    for c in msg.chars() {
+        if c == '"' { in_q = !in_q; if in_q { out.push_str("\"..\""); } continue; }
+        if in_q { continue; }
+        if c.is_ascii_digit() { if !in_num { out.push('#'); in_num = true; } continue; }
+        in_num = false; out.push(c);
+    }
+    out.chars().take(140).collect()
+}
+
+fn ojs(s: &str) -> Option<duke::tree::class::ObjClassName> { duke::tree::class::ObjClassName::try_from(java_string::JavaString::from(s.to_owned())).ok() }
+
+fn ext_provider() -> JarSuperProv {
+    let mut super_classes = IndexMap::new();
+    for (c, sup) in jargen::EXT_SUPERS { if let Some(k) = ojs(c) { super_classes.insert(k, sup.iter().filter_map(|x| ojs(x)).collect::<IndexSet<_>>()); } }
+    JarSuperProv { super_classes }
+}
+fn model_provider(models: &BTreeMap<usize, Class>) -> Result<JarSuperProv, String> {
+    let mut super_classes = IndexMap::new();
+    for m in models.values() {
+        let name = conv::to_java(&m.this_class).and_then(|j| duke::tree::class::ObjClassName::try_from(j).map_err(|e| e.to_string()))?;
+        let mut set = IndexSet::new();
+        for s in m.super_class.iter().chain(m.interfaces.iter()) { set.insert(conv::to_java(s).and_then(|j| duke::tree::class::ObjClassName::try_from(j).map_err(|e| e.to_string()))?); }
+        super_classes.insert(name, set);
+    }
+    Ok(JarSuperProv { super_classes })
+}
+
+/// canaries only: judge the real result against a deliberately wrong expectation
+#[derive(Clone, Copy, PartialEq)]
+enum Wrong { No, Identity, MembersKeepTheirNames }
+/// answers class names and descriptors like the wrapped remapper, but never renames a member
+struct NoMembers<'a>(&'a dyn Answers);
+impl Answers for NoMembers<'_> {
+    fn class_any(&self, c: &JS) -> conv::Ans<JS> { self.0.class_any(c) }
+    fn field_desc(&self, d: &JS) -> conv::Ans<JS> { self.0.field_desc(d) }
+    fn method_desc(&self, d: &JS) -> conv::Ans<JS> { self.0.method_desc(d) }
+    fn return_desc(&self, d: &JS) -> conv::Ans<JS> { self.0.return_desc(d) }
+    fn field(&self, _: &JS, n: &JS, d: &JS) -> conv::Ans<(JS, JS)> { Ok((n.clone(), self.0.field_desc(d)?)) }
+    fn method(&self, _: &JS, n: &JS, d: &JS) -> conv::Ans<(JS, JS)> { Ok((n.clone(), self.0.method_desc(d)?)) }
+    fn field_ref(&self, m: &MemberRef) -> conv::Ans<MemberRef> { Ok(MemberRef { owner: self.0.class_any(&m.owner)?, name: m.name.clone(), desc: self.0.field_desc(&m.desc)? }) }
+    fn method_ref(&self, m: &MemberRef) -> conv::Ans<MemberRef> { Ok(MemberRef { owner: self.0.class_any(&m.owner)?, name: m.name.clone(), desc: self.0.method_desc(&m.desc)? }) }
+}
+
+#[derive(Default)]
+struct Outcome { renamed_kinds: BTreeSet<&'static str>, renamed_class_refs: u64, renamed_member_refs: u64, classes_compared: u64, classes_equal: u64 }
+
+fn run_job(rep: &mut Report, job: &Job, wrong_oracle: Wrong) -> Outcome {
+    match job.maps.n() { 2 => run_n::<2>(rep, job, wrong_oracle), 3 => run_n::<3>(rep, job, wrong_oracle), n => { rep.note(format!("harness: {n} namespaces not supported")); rep.count("harness.namespace"); Outcome::default() } }
+}
+
+fn run_n<const N: usize>(rep: &mut Report, job: &Job, wrong_oracle: Wrong) -> Outcome {
+    let mut ins_rng = Rng::new(job.ins_seed);
+    let q: Mappings<N, ()> = match to_quill::<N, ()>(&job.maps, &mut Ins::Shuffle(&mut ins_rng)) {
+        Ok(q) => q,
+        Err(e) => { rep.count("harness.to_quill_failed"); rep.note(format!("to_quill failed: {}", template(&format!("{e:#}")))); return Outcome::default(); }
+    };
+    let fail = |rep: &mut Report, what: &str| { rep.count("harness.jar_build_failed"); rep.note(format!("building the input jar failed: {}", template(what))); Outcome::default() };
+    match job.front {
+        0 | 1 | 4 => {
+            let data = match jario::zip_bytes(&job.entries, &job.deflate) { Ok(d) => d, Err(e) => return fail(rep, &e) };
+            match job.front {
+                0 => go::<N, _>(rep, job, &q, NamedMemJar { name: "input.jar".into(), data }, wrong_oracle),
+                1 => go::<N, _>(rep, job, &q, UnnamedMemJar { data }, wrong_oracle),
+                _ => {
+                    if let Some(dir) = std::path::Path::new(&job.scratch_file).parent() { let _ = std::fs::create_dir_all(dir); }
+                    if let Err(e) = std::fs::write(&job.scratch_file, &data) { return fail(rep, &e.to_string()); }
+                    let o = go::<N, _>(rep, job, &q, FileJar { path: job.scratch_file.clone().into() }, wrong_oracle);
+                    let _ = std::fs::remove_file(&job.scratch_file);
+                    o
+                }
+            }
+        }
+        f => match guard(|| jario::parsed_jar(&job.entries, f == 3)) {
+            Ok(Ok(j)) => go::<N, _>(rep, job, &q, j, wrong_oracle),
+            Ok(Err(e)) => { rep.violation(format!("C07 input: the class reader refuses a well-formed class: {}", template(e.rsplit(": ").next().unwrap_or(&e))), json!({"error": e, "what": job.what})); Outcome::default() }
+            Err(p) => { rep.violation(format!("panic {}", p.site()), json!({"api": "duke::read_class", "message": p.message, "line": p.line})); Outcome::default() }
+        },
+    }
+}
+
+fn go<const N: usize, J: Jar>(rep: &mut Report, job: &Job, q: &Mappings<N, ()>, jar: J, wrong_oracle: Wrong) -> Outcome {
+    let mut outcome = Outcome::default();
+    let ctxj = || json!({"what": job.what, "front_end": FRONT_ENDS[job.front], "from_namespace": job.from, "to_namespace": job.to, "ext_provider": job.ext_provider, "mappings": job.maps.render()});
+    rep.count(&format!("front_end.{}", FRONT_ENDS[job.front]));
+
+    // ---- the remapper: real mappings, real providers
+    let jar_prov = if job.own_provider {
+        match model_provider(&job.models) { Ok(p) => p, Err(e) => { rep.count("harness.input_rejected_by_checked_constructor"); rep.note(format!("provider: {}", template(&e))); return outcome; } }
+    } else {
+        match guard(|| jar.get_super_classes_provider()) {
+            Ok(Ok(p)) => p,
+            Ok(Err(e)) => { let e = format!("{e:#}"); rep.violation(format!("C07 get_super_classes_provider: Err on a well-formed jar: {}", template(e.rsplit(": ").next().unwrap_or(&e))), json!({"error": e, "ctx": ctxj()})); return outcome; }
+            Err(p) => { rep.violation(format!("panic {}", p.site()), json!({"api": "Jar::get_super_classes_provider", "message": p.message, "line": p.line, "ctx": ctxj()})); return outcome; }
+        }
+    };
+    let mut provs = vec![jar_prov];
+    if job.ext_provider { provs.push(ext_provider()); }
+    let (Ok(nf), Ok(nt)) = (Namespace::<N>::new(job.from), Namespace::<N>::new(job.to)) else { rep.count("harness.namespace"); return outcome; };
+    // two identical remappers: `remap` consumes one, the oracle asks the other
+    let built = guard(|| -> anyhow::Result<_> { Ok((q.remapper_b(nf, nt, &provs)?, q.remapper_b(nf, nt, &provs)?)) });
+    let (r_real, r_oracle) = match built {
+        Ok(Ok(x)) => x,
+        Ok(Err(e)) => { rep.count("harness.remapper_build_failed"); rep.note(format!("remapper_b failed: {}", template(&format!("{e:#}")))); return outcome; }
+        Err(p) => { rep.violation(format!("panic {}", p.site()), json!({"api": "Mappings::remapper_b", "message": p.message, "line": p.line, "ctx": ctxj()})); return outcome; }
+    };
+
+    // ---- the call under observation
+    let parsed = match guard(move || dukebox::remap::remap(jar, r_real)) {
+        Ok(Ok(p)) => p,
+        Ok(Err(e)) => { let e = format!("{e:#}"); rep.violation(format!("C07 remap: Err on a well-formed jar: {}", template(e.rsplit(": ").next().unwrap_or(&e))), json!({"error": e, "ctx": ctxj(), "classes_hex": job.entries.iter().filter_map(|x| if let Item::Class(b) = &x.item { Some(json!({"entry": x.name, "hex": hex(b)})) } else { None }).take(40).collect::<Vec<_>>() })); return outcome; }
+        Err(p) => { rep.violation(format!("panic {}", p.site()), json!({"api": "dukebox::remap::remap", "message": p.message, "line": p.line, "ctx": ctxj()})); return outcome; }
+    };
+    rep.eval();
+    // duke trees before they are written (stack-map frames are only visible here)
+    let mut trees: BTreeMap<String, Class> = BTreeMap::new();
+    for (name, e) in &parsed.entries {
+        if let JarEntryEnum::Class(ClassRepr::Parsed { class }) = &e.content { if let Ok(m) = guard(|| project::project(class)) { trees.insert(name.clone(), m); } }
+    }
+    let mem = match guard(move || parsed.to_mem()) {
+        Ok(Ok(m)) => m,
+        Ok(Err(e)) => { let e = format!("{e:#}"); rep.violation(format!("C07 to_mem: the remapped jar cannot be written: {}", template(e.rsplit(": ").next().unwrap_or(&e))), json!({"error": e, "ctx": ctxj()})); return outcome; }
+        Err(p) => { rep.violation(format!("panic {}", p.site()), json!({"api": "ParsedJar::to_mem", "message": p.message, "line": p.line, "ctx": ctxj()})); return outcome; }
+    };
+    let outs = match jario::read_zip(&mem.data) {
+        Ok(o) => o,
+        Err(e) => { rep.violation("C07 result: the remapped jar does not re-open as a zip archive", json!({"error": e, "ctx": ctxj()})); return outcome; }
+    };
+
+    // ---- expectation, entry by entry
+    let real = conv::Real { r: &r_oracle };
+    let no_members = NoMembers(&real);
+    let oracle: &dyn Answers = match wrong_oracle { Wrong::No => &real, Wrong::Identity => &conv::Identity, Wrong::MembersKeepTheirNames => &no_members };
+    let idx = JarIndex::of(job.models.values());
+    let mut stats = Stats::new();
+    let mut used = vec![false; outs.len()];
+    let names_present = || outs.iter().map(|o| o.name.clone()).take(60).collect::<Vec<_>>();
+    for (i, e) in job.entries.iter().enumerate() {
+        match &e.item {
+            Item::Dir => {
+                rep.count("entries.dir");
+                let want = e.name.trim_end_matches('/');
+                match outs.iter().enumerate().find(|(k, o)| !used[*k] && o.name.trim_end_matches('/') == want) {
+                    Some((k, o)) => { used[k] = true; if !o.is_dir { rep.violation("C07 entry: a directory entry is no longer a directory", json!({"entry": e.name, "ctx": ctxj()})); } }
+                    None => rep.violation("C07 entry: a directory entry is missing from the remapped jar", json!({"entry": e.name, "present": names_present(), "ctx": ctxj()})),
+                }
+            }
+            Item::Other(data) => {
+                rep.count("entries.other");
+                match outs.iter().enumerate().find(|(k, o)| !used[*k] && o.name == e.name) {
+                    Some((k, o)) => {
+                        used[k] = true;
+                        if o.is_dir { rep.violation("C07 entry: a non-class entry became a directory", json!({"entry": e.name, "ctx": ctxj()})); }
+                        else if o.data != *data { rep.violation("C07 entry: content of a non-class entry changed", json!({"entry": e.name, "expected_hex": hex(data), "observed_hex": hex(&o.data), "ctx": ctxj()})); }
+                        else { rep.count("entries.other.identical"); }
+                    }
+                    None => rep.violation("C07 entry: a non-class entry is missing or renamed", json!({"entry": e.name, "present": names_present(), "ctx": ctxj()})),
+                }
+            }
+            Item::Class(bytes) => {
+                rep.count("entries.class");
+                let Some(m) = job.models.get(&i) else { continue };
+                let cdetail = |extra: Value| json!({"entry": e.name, "class_hex": hex(bytes), "detail": extra, "ctx": ctxj()});
+                // expectation through the remapper (a panic or Err of the remapper itself is C06's subject, recorded as harness-side here)
+                let expected = guard(|| rename::rename_ref(m, oracle, &idx, &mut stats));
+                let expected = match expected {
+                    Ok(Ok(x)) => x,
+                    Ok(Err(AskErr::Rejected(why))) => { rep.count("harness.input_rejected_by_checked_constructor"); rep.note(format!("checked constructor rejected a generated name: {}", template(&why))); continue; }
+                    Ok(Err(AskErr::Remapper(why))) => { rep.count("harness.remapper_refused_a_reference"); rep.note(format!("the remapper answered Err for a reference of a well-formed class: {}", template(&why))); continue; }
+                    Err(p) => { rep.violation(format!("panic {}", p.site()), cdetail(json!({"api": "remapper question of the oracle", "message": p.message, "line": p.line}))); continue; }
+                };
+                let want = format!("{}.class", expected.this_class.show());
+                if want != e.name { rep.count("entries.class.renamed"); }
+                let found = outs.iter().enumerate().find(|(k, o)| !used[*k] && o.name == want);
+                let Some((k, o)) = found else {
+                    let still_old = outs.iter().enumerate().any(|(k, o)| !used[k] && o.name == e.name);
+                    rep.violation(if still_old && want != e.name { "C07 entry: class entry is not stored under the name of its remapped class (old name kept)" } else { "C07 entry: class entry is not stored under the name of its remapped class" }, cdetail(json!({"expected_entry": want, "present": names_present()})));
+                    continue;
+                };
+                used[k] = true;
+                if o.is_dir { rep.violation("C07 entry: a class entry became a directory", cdetail(json!({"expected_entry": want}))); continue; }
+                let observed = match parse::parse(&o.data) {
+                    Ok(c) => c,
+                    Err(err) => { rep.violation(format!("C07 class: a class of the remapped jar is not well-formed: {}", template(&err)), cdetail(json!({"error": err, "output_hex": hex(&o.data), "output_entry": want}))); continue; }
+                };
+                outcome.classes_compared += 1; rep.count("classes.compared");
+                let findings = compare::compare(m, &expected, &observed, 200);
+                if findings.is_empty() { outcome.classes_equal += 1; rep.count("classes.equal_to_expectation"); }
+                for f in findings { rep.violation(f.signature.clone(), cdetail(json!({"at": f.at, "expected": f.expected, "observed": f.observed, "original": f.original, "output_hex": hex(&o.data)}))); }
+                // tree level (frames)
+                match trees.get(&want) {
+                    Some(t) => { rep.count("trees.compared"); for f in compare::compare_frames(m, &expected, t, 50) { rep.violation(f.signature.clone(), cdetail(json!({"at": f.at, "expected": f.expected, "observed": f.observed, "original": f.original}))); } }
+                    None => rep.count("trees.not_available"),
+                }
+                // informational: Signature strings that still mention a class the remapper renames (not judged)
+                for sig in m.signature.iter().chain(m.fields.iter().filter_map(|f| f.signature.as_ref())).chain(m.methods.iter().filter_map(|x| x.signature.as_ref())) {
+                    rep.count("not_judged.signature_strings");
+                    if sig.0.contains(&b'L') { if let Some(c) = sig_classes(sig).into_iter().find(|c| oracle.class_any(c).map(|r| r != *c).unwrap_or(false)) { let _ = c; rep.count("not_judged.signature_strings_mentioning_a_renamed_class"); } }
+                }
+            }
+        }
+    }
+    for (k, o) in outs.iter().enumerate() { if !used[k] { rep.violation("C07 entry: unexpected entry in the remapped jar", json!({"entry": o.name, "present": names_present(), "ctx": ctxj()})); } }
+    if outs.len() == job.entries.len() { rep.count("jars.same_entry_count"); }
+    for (kind, (visited, renamed)) in &stats {
+        rep.add(&format!("visited.{kind}"), *visited); rep.add(&format!("renamed.{kind}"), *renamed);
+        if *renamed > 0 { outcome.renamed_kinds.insert(kind); rep.seen("renamed_position_kinds", kind); }
+        if kind.ends_with(".name") || kind.ends_with(".const") || kind.ends_with("(lambda)") || kind.ends_with("element_name") { outcome.renamed_member_refs += renamed; } else if !kind.starts_with("in.") { outcome.renamed_class_refs += renamed; }
+    }
+    outcome
+}
+
+/// class names between `L` and `;`/`<` in a generic signature (only used for an informational counter)
+fn sig_classes(s: &JS) -> Vec<JS> {
+    let b = &s.0; let mut out = vec![]; let mut i = 0;
+    while i < b.len() { if b[i] == b'L' { let e = b[i + 1..].iter().position(|c| matches!(c, b';' | b'<')).map(|p| i + 1 + p).unwrap_or(b.len()); if e > i + 1 { out.push(JS(b[i + 1..e].to_vec())); } i = e; } else { i += 1; } }
+    out
+}
+
+fn emit_checked(m: &Class, layout: &emit::Layout, what: &str) -> Option<Vec<u8>> {
+    let b = emit::emit(m, layout).ok()?;
+    match parse::parse(&b) {
+        Ok(p) if p == *m => Some(b),
+        Ok(p) => { let d = cf::diff::diff(m, &p, 3); eprintln!("HARNESS-ERROR parse(emit(M)) != M at {d:?} ({what})"); std::process::exit(3) }
+        Err(e) => { eprintln!("HARNESS-ERROR parse(emit(M)) failed: {e} ({what})"); std::process::exit(3) }
+    }
+}
+
+fn generated_job(rng: &mut Rng, max_classes: usize, scratch: &str, case: u64) -> Job {
+    let sc = jargen::gen_scenario(rng, max_classes);
+    let mut entries = vec![]; let mut models = BTreeMap::new(); let mut tags = sc.tags.clone();
+    for e in &sc.entries {
+        match e {
+            jargen::Entry::Dir(n) => entries.push(RawEntry { name: n.clone(), item: Item::Dir }),
+            jargen::Entry::Other(n, d) => entries.push(RawEntry { name: n.clone(), item: Item::Other(d.clone()) }),
+            jargen::Entry::Class(i) => {
+                let m = &sc.classes[*i];
+                let layout = if rng.chance(1, 3) { emit::Layout::canonical() } else { let mut l = emit::Layout::random(rng.next_u64()); if rng.chance(1, 8) { l.pool_filler = 250 + rng.below(20); } l };
+                let Some(b) = emit_checked(m, &layout, &format!("case {case} class {}", m.this_class.show())) else { tags.insert("a class could not be emitted (skipped)".into()); continue };
+                for f in features::features(m) { if f.starts_with("class.") || f.starts_with("const.") || f.starts_with("ev.") { tags.insert(f); } }
+                models.insert(entries.len(), m.clone());
+                entries.push(RawEntry { name: format!("{}.class", m.this_class.show()), item: Item::Class(b) });
+            }
+        }
+    }
+    let deflate = entries.iter().map(|_| rng.bool()).collect();
+    Job { what: "generated".into(), entries, models, maps: sc.maps, from: sc.from, to: sc.to, ext_provider: sc.with_ext_provider, own_provider: rng.chance(1, 4), front: if rng.chance(1, 16) { 4 } else { rng.below(4) }, deflate, ins_seed: rng.next_u64(), scratch_file: format!("{scratch}/g{case}.jar"), tags }
+}
+
+fn corpus_job(rng: &mut Rng, groups: &BTreeMap<String, Vec<(String, Vec<u8>)>>, scratch: &str, case: u64) -> Job {
+    let gnames: Vec<&String> = groups.keys().collect();
+    let g = gnames[(case as usize) % gnames.len()];
+    let all = &groups[g];
+    let keep_all = rng.chance(1, 2);
+    let mut entries = vec![]; let mut models = BTreeMap::new(); let mut decls = vec![]; let mut jar_names = vec![];
+    let mut tags = BTreeSet::new(); tags.insert(format!("corpus group {g}"));
+    for (path, bytes) in all {
+        if !keep_all && rng.chance(1, 3) { continue; }
+        let m = match parse::parse(bytes) { Ok(m) => m, Err(e) => { eprintln!("HARNESS-ERROR independent parser rejects corpus class {path}: {e}"); std::process::exit(3) } };
+        if m.module.is_none() {
+            jar_names.push(m.this_class.show());
+            for f in &m.fields { decls.push(jargen::Decl { owner: m.this_class.clone(), name: f.name.clone(), desc: f.desc.clone(), method: false }); }
+            for x in &m.methods { if x.name.0.first() != Some(&b'<') { decls.push(jargen::Decl { owner: m.this_class.clone(), name: x.name.clone(), desc: x.desc.clone(), method: true }); } }
+        }
+        models.insert(entries.len(), m.clone());
+        entries.push(RawEntry { name: format!("{}.class", m.this_class.show()), item: Item::Class(bytes.clone()) });
+    }
+    entries.push(RawEntry { name: "META-INF/MANIFEST.MF".into(), item: Item::Other(b"Manifest-Version: 1.0\r\n\r\n".to_vec()) });
+    if rng.bool() { entries.insert(0, RawEntry { name: "META-INF/".into(), item: Item::Dir }); entries.push(RawEntry { name: "p/".into(), item: Item::Dir }); let mut shifted = BTreeMap::new(); for (k, v) in models { shifted.insert(k + 1, v); } models = shifted; }
+    let (maps, from, to) = jargen::gen_mappings(rng, &jar_names, &["java/lang/Runnable"], &decls, &mut tags);
+    let deflate = entries.iter().map(|_| rng.bool()).collect();
+    Job { what: format!("corpus {g}"), entries, models, maps, from, to, ext_provider: false, own_provider: rng.chance(1, 4), front: if rng.chance(1, 10) { 4 } else { rng.below(4) }, deflate, ins_seed: rng.next_u64(), scratch_file: format!("{scratch}/c{case}.jar"), tags }
+}
+
+fn self_checks() {
+    let die = |m: &str| -> ! { eprintln!("HARNESS-ERROR self-check: {m}"); std::process::exit(3) };
+    let mut rng = Rng::new(0xC07);
+    let mut marked_kinds: BTreeSet<&'static str> = BTreeSet::new();
+    for round in 0..40 {
+        let sc = jargen::gen_scenario(&mut rng, 8);
+        let idx = JarIndex::of(sc.classes.iter());
+        for c in &sc.classes {
+            // (a) under the identity remapper rename_ref is the identity
+            let mut r = rename::Renamer::new(&conv::Identity, &idx, false);
+            match r.class_file(c) { Ok(x) if x == *c => {}, _ => die("rename_ref under the identity remapper changed a class") }
+            if r.stats.values().any(|(_, n)| *n > 0) { die("identity remapper counted as renaming"); }
+            // (b) a marking remapper: the expectation differs, the comparator says so, classifies untouched references as not_remapped,
+            //     accepts the expectation itself and accepts any value at an unjudged position
+            let mut st = Stats::new();
+            let Ok(e) = rename::rename_ref(c, &conv::Marker, &idx, &mut st) else { die("rename_ref failed under the marking remapper") };
+            for (k, (_, n)) in &st { if *n > 0 { marked_kinds.insert(k); } }
+            let f = compare::compare(c, &e, c, 500);
+            if f.is_empty() { die("comparator accepted an unremapped class against a renaming expectation"); }
+            if !f.iter().any(|x| x.signature.ends_with(":not_remapped")) { die("comparator did not classify an untouched reference as not_remapped"); }
+            if f.iter().any(|x| x.signature.contains("signature") || x.signature.contains("lvtt")) { die("comparator judged a Signature string"); }
+            let mut r2 = rename::Renamer::new(&conv::Marker, &idx, false);
+            let Ok(e_plain) = r2.class_file(c) else { die("rename_ref failed") };
+            let mut e_names = e_plain.clone();
+            // unjudged names may be anything
+            for m in &mut e_names.methods { if let Some(s) = &mut m.signature { *s = JS::new("Lwhatever;"); } }
+            if let Some(ic) = &mut e_names.inner_classes { for i in ic { if let Some(n) = &mut i.name { *n = JS::new("Other"); } } }
+            if !compare::compare(c, &e, &e_names, 50).is_empty() { die("comparator rejected an output that differs from the expectation only at unjudged positions"); }
+            // a single wrong reference must be flagged
+            let mut wrong = e_plain.clone(); wrong.this_class = c.this_class.clone();
+            if !compare::compare(c, &e, &wrong, 50).iter().any(|x| x.signature == "C07 fact .this_class:not_remapped") { die("canary: unremapped this_class not flagged"); }
+            let mut wrong = e_plain.clone(); wrong.access ^= 1;
+            if !compare::compare(c, &e, &wrong, 50).iter().any(|x| x.signature == "C07 fact .access:differs") { die("canary: changed access flags not flagged"); }
+            if c.methods.iter().any(|m| m.code.as_ref().is_some_and(|k| k.frames.as_ref().is_some_and(|f| !f.is_empty()))) {
+                let mut wrong = e_plain.clone(); for m in &mut wrong.methods { if let Some(k) = &mut m.code { k.frames = None; } }
+                if !compare::compare(c, &e, &wrong, 50).iter().any(|x| x.signature == "C07 fact .methods[].code.frames:missing") { die("canary: dropped frames not flagged"); }
+            }
+        }
+        let _ = round;
+    }
+    let missing: Vec<&&str> = rename::KINDS.iter().filter(|k| !marked_kinds.contains(**k)).collect();
+    if !missing.is_empty() { die(&format!("the scenario generator never produced these reference positions in 40 jars: {missing:?}")); }
+}
+
+/// end-to-end canary: the real remap judged against a deliberately wrong expectation (identity) must be flagged
+fn end_to_end_canary(scratch: &str) {
+    let mut rng = Rng::new(0xE2E);
+    for case in 0..50 {
+        let mut job = generated_job(&mut rng, 6, scratch, 1_000_000 + case);
+        job.front = (case % 4) as usize;
+        let mut probe = Report::new();
+        let real = run_job(&mut Report::new(), &job, Wrong::No);
+        if real.renamed_class_refs == 0 || real.renamed_kinds.iter().filter(|k| ["field_decl.name", "method_decl.name", "insn.field.name", "insn.invoke.name"].contains(k)).count() < 2 || !job.models.values().any(|m| format!("{}.class", m.this_class.show()) != "" && real.renamed_kinds.contains("this_class")) { continue; }
+        run_job(&mut probe, &job, Wrong::Identity);
+        let sigs: Vec<String> = probe.violations.keys().cloned().collect();
+        if !sigs.iter().any(|s| s.starts_with("C07 entry: class entry is not stored")) { eprintln!("HARNESS-ERROR end-to-end canary: a wrong expectation for class names was not flagged ({sigs:?})"); std::process::exit(3); }
+        let mut probe = Report::new();
+        run_job(&mut probe, &job, Wrong::MembersKeepTheirNames);
+        let sigs: Vec<String> = probe.violations.keys().cloned().collect();
+        if !sigs.iter().any(|s| s.starts_with("C07 fact ") && s.ends_with(":differs")) { eprintln!("HARNESS-ERROR end-to-end canary: a wrong expectation for references was not flagged ({sigs:?})"); std::process::exit(3); }
+        return;
+    }
+    eprintln!("HARNESS-ERROR end-to-end canary: no scenario with renamed class and member references in 50 tries"); std::process::exit(3);
+}
+
+fn main() {
+    let mut ctx = Ctx::from_args("C07", 40, 540);
+    let replay = load_replay(&mut ctx);
+    let mut rep = Report::new();
+    let scratch = format!("{}/scratch/c07-{}", ctx.out_dir, std::process::id());
+    if replay.is_none() {
+        // same stack size as the workers of run_cases (the projections / JSON forms of deeply nested annotations recurse)
+        let sc = scratch.clone();
+        let h = std::thread::Builder::new().stack_size(64 << 20).spawn(move || { self_checks(); end_to_end_canary(&sc); }).expect("spawn self-check thread");
+        if h.join().is_err() { eprintln!("HARNESS-ERROR self-checks panicked"); std::process::exit(3); }
+    }
+
+    let account = |rep: &mut Report, job: &Job, o: &Outcome| {
+        for t in &job.tags { rep.seen("scenario", t); }
+        rep.add("refs.class_answers_that_rename", o.renamed_class_refs); rep.add("refs.member_answers_that_rename", o.renamed_member_refs);
+        if o.classes_compared >= 1 && o.renamed_class_refs > 0 && o.renamed_member_refs > 0 {
+            let mut s = String::new(); for t in &job.tags { s.push_str(t); s.push('|'); } for k in &o.renamed_kinds { s.push_str(k); s.push('|'); }
+            rep.nontrivial(common::rng::fnv_str(&s)); rep.count("jars.nontrivial");
+        }
+        if rep.want_sample() && job.entries.len() <= 6 && o.renamed_class_refs > 0 {
+            rep.sample(|| json!({"kind": job.what, "front_end": FRONT_ENDS[job.front], "entries": job.entries.iter().map(|e| json!({"name": e.name, "kind": match &e.item { Item::Dir => "dir", Item::Class(_) => "class", Item::Other(_) => "other" }, "bytes": match &e.item { Item::Dir => 0, Item::Class(b) | Item::Other(b) => b.len() }})).collect::<Vec<_>>(),
+                "first_class_hex": job.entries.iter().find_map(|e| if let Item::Class(b) = &e.item { if b.len() < 700 { Some(hex(b)) } else { None } } else { None }),
+                "mappings": job.maps.render(), "from": job.from, "to": job.to, "renamed_position_kinds": o.renamed_kinds.iter().collect::<Vec<_>>()}));
+        }
+    };
+
+    let n = ctx.tier.pick(700, 12_000);
+    let max_classes = ctx.tier.pick(10, 40);
+    run_cases(&ctx, &replay, &mut rep, "generated", n, |rng, rep, case| {
+        let job = generated_job(rng, if case % 8 == 7 { max_classes } else { 10.min(max_classes) }, &scratch, case);
+        let o = run_job(rep, &job, Wrong::No);
+        rep.count("jars.generated");
+        account(rep, &job, &o);
+    });
+
+    let corpus = cf::corpus::load(&ctx.verif_dir);
+    let mut groups: BTreeMap<String, Vec<(String, Vec<u8>)>> = BTreeMap::new();
+    for (path, bytes) in corpus { let g = path.split('/').next().unwrap_or("").to_string(); groups.entry(g).or_default().push((path, bytes)); }
+    let nc = if groups.is_empty() { 0 } else { ctx.tier.pick(60, 1_000) };
+    run_cases(&ctx, &replay, &mut rep, "corpus", nc, |rng, rep, case| {
+        let job = corpus_job(rng, &groups, &scratch, case);
+        let o = run_job(rep, &job, Wrong::No);
+        rep.count("jars.corpus");
+        account(rep, &job, &o);
+    });
+    let _ = std::fs::remove_dir_all(&scratch);
+
+    let mut meta = Meta::new("exploration", "jars of 1..10 (every 8th: up to 40 in thorough) generated classes (cf::gen, references re-pointed at members declared inside the jar, in super types inside and outside the jar; inner-class / nest / sealed records between jar classes; overloads, same-named fields, enum constants, lambda-shaped call sites) plus resources and directories, and jars of javac corpus groups; mapping sets keyed by the jar's own classes and members (partial, package moves, inner classes following their outer class, identity entries, 2-cycles, 2 or 3 namespaces in every direction); five jar front ends; a jar is non-trivial if at least one class-name answer and one member-name answer of the remapper differ from the original; distinct = distinct (scenario tags, set of position kinds renamed)")
+        .assume("the expectation is defined through the real remapper (the property says: what the remapper answers); a defect of the remapper itself is C06's subject")
+        .assume("the independent parser/emitter (harness/cf) implement JVMS chapter 4; cross-checked on every generated class (parse(emit(M)) == M) and on the javac corpus")
+        .assume("not judged: generic Signature strings and LocalVariableTypeTable signatures, InnerClasses.inner_name, invokedynamic/condy names without LambdaMetafactory shape, annotation element names whose annotation type is not a class of the jar, entry order, timestamps/compression of entries");
+    if replay.is_none() {
+        let need = ctx.tier.pick(10, 100);
+        for k in rename::KINDS { meta.oblige(format!("reference position `{k}`: the remapper's answer differed from the original at least {need} times"), rep.get(&format!("renamed.{k}")) >= need); }
+        for k in rename::CONTEXTS { meta.oblige(format!("context `{k}`: at least {need} renamed references inside"), rep.get(&format!("renamed.{k}")) >= need); }
+        for f in FRONT_ENDS { meta.oblige(format!("front end {f} used"), rep.get(&format!("front_end.{f}")) >= 5); }
+        meta.oblige("class entries stored under a new name", rep.get("entries.class.renamed") >= need * 10);
+        meta.oblige("non-class entries and directories were present", rep.get("entries.other") >= need && rep.get("entries.dir") >= need);
+        meta.oblige("corpus jars were remapped", rep.get("jars.corpus") >= 20);
+        meta.oblige("no generated name was rejected by a checked constructor, no harness conversion failed", rep.get("harness.input_rejected_by_checked_constructor") + rep.get("harness.to_quill_failed") + rep.get("harness.jar_build_failed") + rep.get("harness.namespace") + rep.get("harness.remapper_build_failed") + rep.get("harness.remapper_refused_a_reference") == 0);
+        for t in ["two classes swap names", "inner class follows outer", "package move", "class mapped to itself", "entry without from/to name", "overloaded method", "same field name, two descriptors"] { meta.oblige(format!("scenario `{t}` occurred"), rep.sets.get("scenario").is_some_and(|s| s.contains(t))); }
+    }
+    std::process::exit(finish(&ctx, rep, meta));
+}
